@@ -18,7 +18,10 @@ from lib import sim
 
 HBARS = [1.0, 0.5, 0.7, 3.0, 4.5, 0.98]
 MAX_WEIGHTS_FOCK = 12
-METHOD_TOL = {"squeezing": 1e-6}
+# thewalrus-backed Fock-basis numbers carry absolute noise of a few 1e-9 (entries that are exactly 0 at one hbar come out as
+# 3e-9 at another); real scaling mistakes are at the 1e-2 level
+METHOD_TOL = {"squeezing": 1e-6, "reduced_dm": 1e-8, "dm": 1e-8, "ket": 1e-8, "all_fock_probs": 1e-8, "fock_prob": 1e-8,
+              "fidelity_coherent": 1e-8, "fidelity_vacuum": 1e-8}
 NAN_WILD = {"squeezing"}
 # power of s carried by numeric parameter j of a class
 PAR_DIM = {"Xgate": [1], "Zgate": [1], "Vgate": [-1]}
@@ -64,12 +67,23 @@ def rescale_spec(spec, h):
     return out
 
 
-def build(sf, spec, name="p"):
+def build(sf, spec, name="p", op_cache=None):
+    """spec -> sf.Program.  `op_cache` (dict) makes equal operations ONE shared Operation instance, within the program
+    and across all programs built with the same cache (`x = Xgate(0.3)` created once and applied many times).
+    Ops "Del" / "New" delete / create modes (register with holes: subsystem index != position)."""
     from strawberryfields import ops
     prog = sf.Program(spec["n"], name=name)
     with prog.context as q:
+        q = list(q)
         for op in spec["ops"]:
             cls = op["cls"]
+            if cls == "Del":
+                regs = [q[i] for i in op["regs"]]
+                ops.Del | (regs if len(regs) > 1 else regs[0])
+                continue
+            if cls == "New":
+                q += list(ops.New(len(op["regs"])))
+                continue
             kw = dict(op.get("kw", {}))
             pars = []
             for p in op.get("pars", []):
@@ -79,28 +93,84 @@ def build(sf, spec, name="p"):
                     pars.append(v if k == 1 else k * v)
                 else:
                     pars.append(p)
-            if cls == "Gaussian":
-                o = ops.Gaussian(np.array(pars[0], dtype=float), np.array(pars[1], dtype=float), **kw)
-            elif cls == "MeasureHeterodyne":
-                sel = op.get("select")
-                o = ops.MeasureHeterodyne(select=None if sel is None else complex(sel[0], sel[1]))
-            elif cls in ("MeasureHomodyne",):
-                o = ops.MeasureHomodyne(pars[0], select=op.get("select"))
+            key = None
+            if op_cache is not None and not any(isinstance(p, dict) for p in op.get("pars", [])):
+                key = repr((cls, op.get("pars"), sorted(kw.items(), key=str), bool(op.get("dagger")), op.get("select")))
+            if key is not None and key in op_cache:
+                o = op_cache[key]
             else:
-                o = getattr(ops, cls)(*pars, **kw)
-            if op.get("dagger"):
-                o = o.H
+                if cls == "Gaussian":
+                    o = ops.Gaussian(np.array(pars[0], dtype=float), np.array(pars[1], dtype=float), **kw)
+                elif cls == "Bosonic":
+                    o = ops.Bosonic(np.array(pars[0], dtype=complex), np.array(pars[1], dtype=complex),
+                                    np.array(pars[2], dtype=complex))
+                elif cls == "MeasureHeterodyne":
+                    sel = op.get("select")
+                    o = ops.MeasureHeterodyne(select=None if sel is None else complex(sel[0], sel[1]))
+                elif cls in ("MeasureHomodyne",):
+                    o = ops.MeasureHomodyne(pars[0], select=op.get("select"))
+                else:
+                    o = getattr(ops, cls)(*pars, **kw)
+                if op.get("dagger"):
+                    o = o.H
+                if key is not None:
+                    op_cache[key] = o
             regs = [q[i] for i in op["regs"]]
             o | (regs if len(regs) > 1 else regs[0])
     return prog
 
 
-def run(sf, spec2, backend, h, seed=0):
+def final_modes(spec):
+    """number of modes of the returned state (after Del / New)"""
+    n = spec["n"]
+    for op in spec["ops"]:
+        if op["cls"] == "Del":
+            n -= len(op["regs"])
+        elif op["cls"] == "New":
+            n += len(op["regs"])
+    return n
+
+
+def with_holes(rng, spec):
+    """insert `Del` of a mode after its last use, and possibly a `New` mode that is then squeezed / displaced by an
+    hbar-reading gate / measured: subsystem index != position in the register and in the state object"""
+    n = spec["n"]
+    if n < 2:
+        return spec
+    ops_ = [dict(o) for o in spec["ops"]]
+    d = rng.randrange(n)
+    last = -1
+    for i, o in enumerate(ops_):
+        wires = list(o["regs"]) + [p["m"] for p in o.get("pars", []) if isinstance(p, dict) and "m" in p]
+        if d in wires:
+            last = i
+    t = rng.randint(last + 1, len(ops_))
+    ops_.insert(t, dict(cls="Del", regs=[d], pars=[]))
+    if rng.random() < 0.6:
+        t2 = rng.randint(t + 1, len(ops_))
+        ops_.insert(t2, dict(cls="New", regs=[n], pars=[]))
+        extra = [dict(cls="Sgate", regs=[n], pars=[0.25, 0.4]),
+                 dict(cls=rng.choice(["Xgate", "Zgate"]), regs=[n], pars=[round(rng.uniform(-0.6, 0.6), 2)])]
+        others = [m for m in range(n) if m != d]
+        if others and rng.random() < 0.6:
+            extra.append(dict(cls="BSgate", regs=[n, rng.choice(others)], pars=[0.7, 0.3]))
+        if others and rng.random() < 0.4:
+            extra.append(dict(cls="MeasureHomodyne", regs=[rng.choice(others)], pars=[0.0],
+                              select=round(rng.uniform(-0.5, 0.5), 2)))
+        for e in extra:
+            t2 = rng.randint(t2 + 1, len(ops_))
+            ops_.insert(t2, e)
+    out = dict(spec)
+    out["ops"] = ops_
+    return out
+
+
+def run(sf, spec2, backend, h, seed=0, op_cache=None):
     """run the hbar = 2 spec, rescaled to hbar = h, on `backend` with sf.hbar = h.  Returns (result, state)."""
     sf.hbar = h
     try:
         spec = rescale_spec(spec2, h) if h != 2 else spec2
-        prog = build(sf, spec)
+        prog = build(sf, spec, op_cache=op_cache)
         opts = {}
         name = backend
         if backend.startswith("fock"):
@@ -220,6 +290,8 @@ def observe(sf, st, call, h):
         return "NotImplementedError"
     except ValueError as e:
         return "ValueError"
+    except Exception as e:  # noqa: BLE001  an exception of the code under test is an answer, not a harness crash
+        return "raised:" + type(e).__name__
     raise KeyError(m)
 
 
